@@ -3902,6 +3902,9 @@ impl<'s> Semantics<'s> {
             self.set_flag_unless_zero_count(block, "ZF", &count, zf)?;
             let sf = self.msb(result.clone())?;
             self.set_flag_unless_zero_count(block, "SF", &count, sf)?;
+            // OF (defined for a count of 1): set when the sign of the destination changed
+            let of = Expr::xor(self.msb(result.clone())?, self.msb(dst.clone())?)?;
+            self.set_flag_unless_zero_count(block, "OF", &count, of)?;
 
             self.operand_store(block, &detail.operands[0], result)?;
 
@@ -3957,6 +3960,9 @@ impl<'s> Semantics<'s> {
             self.set_flag_unless_zero_count(block, "ZF", &count, zf)?;
             let sf = self.msb(result.clone())?;
             self.set_flag_unless_zero_count(block, "SF", &count, sf)?;
+            // OF (defined for a count of 1): set when the sign of the destination changed
+            let of = Expr::xor(self.msb(result.clone())?, self.msb(dst.clone())?)?;
+            self.set_flag_unless_zero_count(block, "OF", &count, of)?;
 
             self.operand_store(block, &detail.operands[0], result)?;
 
